@@ -16,7 +16,9 @@ Inductive opx :=
 (* (sender, keys asc, tx ids by key, nonces asc, processables as stored) *)
 Definition lsnap : Type := N * list N * list N * list N * list N.
 Record snap := mkSnap { s_all : list N; s_queue : list N; s_qhead : option N; s_lists : list lsnap }.
-Record obs := mkObs { b_ret : bool; b_hang : bool; b_panic : bool; b_api : bool; b_gone : list N; b_snap : snap }.
+(* b_skip: the operation overlapped with the next one (it was parked at its verifier call while the next was issued);
+   no snapshot could be taken in between: only its result is compared, the state is compared after the next step *)
+Record obs := mkObs { b_ret : bool; b_hang : bool; b_panic : bool; b_api : bool; b_gone : list N; b_snap : snap; b_skip : bool }.
 Definition seq_case : Type := cfg * list (opx * obs).
 
 Definition ans (v : N) : answer := match v with 0 => AOk | 1 => APending | _ => AInvalid end.
@@ -112,7 +114,7 @@ Definition snap_ok (c : cfg) (table : list (N * tx)) (s : snap) : bool :=
   forallb (fun id => (count id (flat_map (fun x => snd (fst (fst x))) (s_lists s)) =? 1)%nat) (s_all s).
 
 Definition obs_ok (c : cfg) (table : list (N * tx)) (b : obs) : bool :=
-  negb (b_hang b) && negb (b_panic b) && b_api b && snap_ok c table (b_snap b).
+  negb (b_hang b) && negb (b_panic b) && (b_skip b || (b_api b && snap_ok c table (b_snap b))).
 
 Definition table_of (steps : list (opx * obs)) : list (N * tx) :=
   flat_map (fun so => match fst so with XAdd t _ _ => [(tid t, t)] | _ => [] end) steps.
@@ -124,7 +126,7 @@ Fixpoint first_diff (c : cfg) (steps : list (opx * obs)) (p : pool) (i : N) : N 
   | (o, b) :: r =>
     if b_hang b || b_panic b then i
     else let '(p', ret) := model_op c o (b_gone b) p in
-         if Bool.eqb ret (b_ret b) && snap_eqb (project p') (b_snap b) then first_diff c r p' (i + 1) else i
+         if Bool.eqb ret (b_ret b) && (b_skip b || snap_eqb (project p') (b_snap b)) then first_diff c r p' (i + 1) else i
   end.
 Fixpoint first_bad (c : cfg) (table : list (N * tx)) (steps : list (opx * obs)) (i : N) : N :=
   match steps with
